@@ -58,6 +58,9 @@ def trace_tables(ctx):
                 trees = qgates.traced_matrix(g)
                 traced[nm] = (None, trees)
                 tab.ob_matrix_unitary(f"C01_unitary_{nm}", 2, trees, gate=nm)
+                from spec.gatedocs import generalized_rbs
+                doc = matrix_trees(np.array(generalized_rbs(len(qi), len(qo), S.par(0), S.par(1)), dtype=object))
+                tab.ob_matrix_eq(f"C01_doc_{nm}", 2, trees, doc, gate=nm)
             except (Untranslatable, BranchOnSymbol, TypeError) as e:
                 ctx.ob(f"C01_trace_{nm}", False, "translator", f"{type(e).__name__}: {e}")
     finally:
@@ -125,6 +128,30 @@ def table_search(ctx, traced):
                 ok = np.allclose(m, t, atol=1e-9)
                 ctx.ob(f"C01_tracer_{name}", ok, "translator-selfcheck",
                        "" if ok else f"traced expression differs from real matrix at {vals}") if not ok else None
+
+
+def grbs_search(ctx):
+    """GeneralizedRBS on register layouts of unequal sizes and permuted qubits: real matrix
+    vs the documented Givens rotation (numeric search behind the kernel obligations)."""
+    from spec.gatedocs import generalized_rbs
+
+    G = qgates.gates_module()
+    nb = qgates.np_backend()
+    layouts = [([0], [1]), ([1], [0]), ([0, 1], [2]), ([0], [1, 2]), ([2], [0, 1]), ([2, 0], [1]), ([0, 1], [2, 3]), ([3], [1, 0, 2]), ([0, 2, 1], [3])]
+    for qi, qo in layouts:
+        for _ in range(2):
+            th, ph = ctx.rng.uniform(-3, 3), ctx.rng.choice([0.0, ctx.rng.uniform(-3, 3)])
+            try:
+                m = np.asarray(G.GeneralizedRBS(qi, qo, th, ph).matrix(nb))
+            except Exception as e:  # noqa: BLE001
+                ctx.fail(f"grbs:raises:{type(e).__name__}", f"GeneralizedRBS({qi},{qo}) matrix raises {e}", f"from qibo import gates\ngates.GeneralizedRBS({qi},{qo},{th},{ph}).matrix()", broken=["C01_doc_GeneralizedRBS_1_2"])
+                continue
+            doc = qgates.numeric_matrix(matrix_trees(np.array(generalized_rbs(len(qi), len(qo), S.par(0), S.par(1)), dtype=object)), [th, ph])
+            ctx.case(("grbs", tuple(qi), tuple(qo)))
+            if not np.allclose(m, doc, atol=1e-9):
+                ctx.fail(f"doc:GeneralizedRBS_{len(qi)}_{len(qo)}", f"GeneralizedRBS({qi},{qo},{th},{ph}) matrix differs from the documented Givens rotation",
+                         f"from qibo import gates; import numpy as np\nm = gates.GeneralizedRBS({qi},{qo},{th},{ph}).matrix()\ndoc = np.array({np.round(doc, 12).tolist()})\nassert np.allclose(m, doc, atol=1e-9), (m, doc)",
+                         broken=[f"C01_doc_GeneralizedRBS_{len(qi)}_{len(qo)}"])
 
 
 # ---------------------------------------------------------------------------
@@ -249,7 +276,18 @@ def exec_correspondence(ctx):
         for g in gs:
             c.add(g)
         if kind == "SV":
-            real = np.asarray(nb.execute_circuit(c, initial_state=psi.copy()).state())
+            # the caller's array is passed as it is, twice: the input must not be modified and
+            # the second execution must return the same state (first gate applied in place?)
+            arg = psi.copy()
+            real = np.asarray(nb.execute_circuit(c, initial_state=arg).state())
+            real2 = np.asarray(nb.execute_circuit(c, initial_state=arg).state())
+            if not np.array_equal(arg, psi) or not np.array_equal(real, real2):
+                descr = [describe(g) for g in gs]
+                py = _replay_exec(kind, n, gs, psi, model).replace(
+                    "out = nb.execute_circuit(c, initial_state=np.array(", "psi = np.array(").replace(")).state()", ")\nnb.execute_circuit(c, initial_state=psi)\nout = nb.execute_circuit(c, initial_state=psi).state()")
+                ctx.fail(f"exec:input-modified:{descr[0]}", f"executing {descr} modifies the caller's initial state array / a second execution on the same array differs",
+                         py, expected=str(model.tolist()), observed=str(real2.tolist()), broken=["C01_corr_exec"])
+                bad += 1
         else:
             real = np.asarray(c.unitary(nb)).reshape(-1)
         key = (kind, n, tuple(describe(g) for g in gs))
@@ -349,6 +387,7 @@ def run(ctx):
     build_and_audit(ctx, PROP, MODULES, THEOREMS, gen_obs=True)
     exec_correspondence(ctx)
     table_search(ctx, traced)
+    grbs_search(ctx)
     exec_search(ctx)
     ctx.assumptions += [
         "qulacs backend not installed in this sandbox: only the numpy state-vector backend is exercised",
